@@ -669,6 +669,18 @@ func realMain() {
 		{[]string{"mkdir shadow/hexit", "env PATH=$WORK/shadow", "exec hexit 0"}, expectation{Verdict: "fail", FailLine: 3, Why: "only a directory of that name is on PATH: the program is not found"}},
 		{[]string{"env PATH=$WORK/nodir${:}${:}$PATH", "exec hexit 0", "[exec:hexit] exists nofile"}, expectation{Verdict: "fail", FailLine: 3, Why: "missing and empty PATH elements are passed over; hexit is found"}},
 	}
+	// a program that exits 0 has succeeded, however long a descendant of it keeps
+	// the inherited output open (exec waits for the output to end, then judges
+	// the exit status)
+	pathCases = append(pathCases, []struct {
+		lines []string
+		exp   expectation
+	}{
+		{[]string{"exec hlinger 400", "stdout started"}, expectation{Verdict: "pass", Why: "hlinger exits 0; its descendant holds the output pipe for 400 ms more"}},
+		{[]string{"! exec hlinger 400"}, expectation{Verdict: "fail", FailLine: 1, Why: "hlinger exits 0, so the negated exec fails"}},
+		{[]string{"exec hlinger 400", "exists nofile"}, expectation{Verdict: "fail", FailLine: 2, Why: "hlinger exits 0; the next line fails"}},
+		{[]string{"exec hecho xyz uvw", "exec hlinger 250", "! stdout xyz", "! stderr uvw", "stdout started"}, expectation{Verdict: "pass", Why: "hlinger exits 0 and its output replaces the earlier one"}},
+	}...)
 	for _, pc := range pathCases {
 		for _, cfg := range []config{def, coe} {
 			e := pc.exp
